@@ -38,6 +38,12 @@ type RunOpts struct {
 	Lazy      bool   // C19: value bytes never read by key-only ops
 	Plan      *FaultPlan
 	NoFinal   bool // skip the end-of-case comparison (engines that do their own)
+	KeepData  bool // log the payload of every write (C03)
+	// InitImage/InitDurable start the case on an existing file image whose
+	// durable states are known (C03: a crash image and what must be recoverable).
+	InitImage   []byte
+	InitDurable []Durable
+	After       func(w *World) // called at the very end of a successful run
 	Hook      func(w *World, phase string, i int, op *Op) // engine specific observer
 }
 
@@ -140,8 +146,18 @@ func (w *World) run() {
 	if !w.c.Cfg.Mem {
 		w.file = NewMemFile("main")
 		w.file.Plan = w.opt.Plan
+		w.file.KeepData = w.opt.KeepData
 		if w.opt.Lazy {
 			w.lazy = newLazyState()
+		}
+		if w.opt.InitImage != nil {
+			w.file.B = append([]byte(nil), w.opt.InitImage...)
+			for _, d := range w.opt.InitDurable {
+				w.durable = append(w.durable, Durable{ms: d.ms.Clone(), fileLen: d.fileLen})
+			}
+			if len(w.durable) == 0 && len(w.file.B) > 0 {
+				w.junkEnd = int64(len(w.file.B)) // no completed flush: the "no roots" error is acceptable
+			}
 		}
 	}
 	w.opIdx = -1
@@ -176,6 +192,9 @@ func (w *World) run() {
 		w.checkAll()
 		w.finish()
 	}
+	if w.opt.After != nil {
+		w.opt.After(w)
+	}
 }
 
 // setAPI tags subsequent file calls with the op index (even: the op itself,
@@ -206,6 +225,15 @@ func (w *World) openOrig(first bool) {
 			if w.file == nil {
 				st, err = g.NewStoreEx(nil, w.cbs)
 			} else {
+				st, err = g.NewStoreEx(w.file, w.cbs)
+			}
+			if err != nil && w.file != nil && len(w.durable) == 0 && len(w.file.B) > 0 &&
+				w.junkEnd > 0 && strings.Contains(err.Error(), "couldn't find roots") {
+				// Bytes of a failed first Flush but no root record: the documented
+				// "no roots" error.  The application starts over with an empty file.
+				w.ev["reopen_no_roots"]++
+				w.file.B = w.file.B[:0]
+				w.junkEnd = 0
 				st, err = g.NewStoreEx(w.file, w.cbs)
 			}
 			return err
@@ -254,6 +282,7 @@ func (w *World) call(name string, hasErr bool, f func() error) (ok bool) {
 	if p != nil && p.Fired && !fired0 {
 		w.ev["fault_fired"]++
 		w.ev["fault_in_"+name]++
+		p.FiredOp = w.opIdx
 		if hasErr && err == nil {
 			w.failf("error-swallowed:"+name, "injected %s failure (call %d) during %s was swallowed: the call returned a nil error",
 				p.FiredKind, p.FailAt, name)
@@ -332,6 +361,12 @@ func (w *World) step(op *Op) {
 		w.ev["op_failed_by_fault"]++
 		w.ev["faulted:"+op.K]++
 		w.afterFault(op)
+		if len(w.c.Cfg.Extra) > 0 && w.c.Cfg.Extra[0] == 1 && op.K != OpReopen {
+			// variant: the application gives up on the failed call; everything
+			// later must behave as if it had never been made.
+			w.ev["abandoned"]++
+			return
+		}
 		w.ev["retried"]++
 	}
 }
@@ -361,6 +396,9 @@ func (w *World) exec(op *Op) (done bool) {
 		c, mc := w.collFor(h, op.C, true)
 		key := append([]byte(nil), op.Key...)
 		val := append([]byte{}, op.Val...)
+		if op.Flag > 0 {
+			val = w.hostileValue(op.Flag, val)
+		}
 		var it *g.Item
 		prio := op.Prio
 		ok := w.call("SetItem", true, func() error {
@@ -728,20 +766,29 @@ func (w *World) execFlush() bool {
 		}
 		return true
 	}
-	pre := int64(len(w.file.B))
+	pre := h.st.VerifSize()
 	ok := w.call("Flush", true, func() error { return h.st.Flush() })
 	if !ok {
 		w.junkEnd = int64(len(w.file.B))
 		return false
 	}
 	changed := !w.liveEqualsDurable()
-	w.durable = append(w.durable, Durable{ms: h.m.Clone(), fileLen: int64(len(w.file.B))})
+	// The root record ends at the store's append position; the file itself may be
+	// longer when leftovers of a failed flush lie beyond it.
+	end := h.st.VerifSize()
+	if end <= pre || end > int64(len(w.file.B)) {
+		w.failf("flush-no-root", "Flush returned nil but the append position went %d -> %d (file has %d bytes)", pre, end, len(w.file.B))
+	}
+	w.durable = append(w.durable, Durable{ms: h.m.Clone(), fileLen: end})
 	w.ev["flush"]++
 	if changed {
 		w.ev["flush_changed"]++
 	}
-	if int64(len(w.file.B)) <= pre {
-		w.failf("flush-no-root", "Flush returned nil but the file did not grow (%d -> %d)", pre, len(w.file.B))
+	if end < int64(len(w.file.B)) {
+		w.ev["flush_below_leftovers"]++
+		w.junkEnd = int64(len(w.file.B))
+	} else {
+		w.junkEnd = 0
 	}
 	if w.opt.Decode {
 		w.decodeCheck()
@@ -1296,6 +1343,12 @@ func (w *World) probe() {
 
 // finish runs the end-of-case obligations.
 func (w *World) finish() {
+	if w.opt.Plan != nil {
+		// force reuse of any node that was wrongly freed after the fault
+		w.churn(48)
+		w.checkAll()
+		w.probe()
+	}
 	if w.rc != nil {
 		for _, sh := range w.snaps {
 			sh.st.Close()
